@@ -103,16 +103,31 @@ inline G make_elem(In& in, int cls) {
 }
 
 // pool factories -----------------------------------------------------------------------------
+// pool element `index`: 0..3 generic elements of four scale classes, 4 the exact identity,
+// 5 a one-parameter element (exp of an axis-aligned tangent)
 template<class G>
 G* pool_make_elem(In& in, int index) {
+  if (index == 4) return new G(smooth::Identity<G>(dof_of<G>()));
+  if (index == 5) {
+    smooth::Tangent<G> a = smooth::Tangent<G>::Zero(dof_of<G>());
+    a(dof_of<G>() - 1) = static_cast<smooth::Scalar<G>>(in.sym(2.0));
+    return new G(smooth::exp<G>(a));
+  }
   return new G(make_elem<G>(in, index));
 }
 template<class G>
 void pool_digest_elem(const G& g, Out& out) {
   put_elem(out, g);
 }
+// pool tangent `index`: 0..3 four scale classes, 4 exactly zero, 5 axis-aligned
 template<class G>
 smooth::Tangent<G>* pool_make_tan(In& in, int index) {
+  if (index == 4) return new smooth::Tangent<G>(smooth::Tangent<G>::Zero(dof_of<G>()));
+  if (index == 5) {
+    auto* a = new smooth::Tangent<G>(smooth::Tangent<G>::Zero(dof_of<G>()));
+    (*a)(0) = static_cast<smooth::Scalar<G>>(in.sym(3.0));
+    return a;
+  }
   return new smooth::Tangent<G>(make_tan<G>(in, index));
 }
 template<class G>
